@@ -30,7 +30,7 @@ SPEC = {
     "C08": dict(vals=[VAL.c08_cfi], clauses=["C08/directives-still-evaluate-cleanly", "C08/instruction-inside-a-procedure-iff-it-was",
                                               "C08/unwind-state-unchanged-when-nothing-is-deleted", "C08/procedure-structure-directives-never-dropped",
                                               "C08/inserted-code-covered-by-the-enclosing-procedure", "C08/patch-directives-take-effect-inside-a-procedure"],
-                space=dict(cfis=("whole", "b1only", "endatb1", "b0b1", "b1b2"), patches=["plain", "cfi", "two", "cfidup", "cfilab", "cfistack"])),
+                space=dict(cfis=("whole", "b1only", "endatb1", "b0b1", "b1b2"), patches=["plain", "cfi", "two", "cfidup", "cfilab", "cfistack", "cficlob", "cfiscratch", "twoclob"])),
 }
 
 
